@@ -10,6 +10,7 @@ import (
 	"io"
 	"math/big"
 	"net/http"
+	"os"
 	"sort"
 	"strings"
 	"sync"
@@ -82,7 +83,10 @@ func (p *ocspPKI) makeResponse(s respSpec, leaf *Leaf, serial *big.Int) []byte {
 	}
 	var issuer, responder *x509.Certificate
 	var key crypto.Signer
-	switch s.Signer {
+	// "<signer>-bare": the CertID names the real issuer, the signature is the signer's, and no
+	// responder certificate is embedded (the verifier has to find the key among its candidates)
+	bare := strings.HasSuffix(s.Signer, "-bare")
+	switch strings.TrimSuffix(s.Signer, "-bare") {
 	case "issuer", "":
 		issuer, responder, key = p.CA.Cert, p.CA.Cert, p.CA.Key
 	case "delegate":
@@ -99,7 +103,9 @@ func (p *ocspPKI) makeResponse(s respSpec, leaf *Leaf, serial *big.Int) []byte {
 	case "sibling":
 		issuer, responder, key = p.Sibling.Cert, p.Sibling.Cert, p.Sibling.Key
 	}
-	if !responder.Equal(issuer) {
+	if bare {
+		issuer = p.CA.Cert
+	} else if !responder.Equal(issuer) {
 		tmpl.Certificate = responder // embedded responder certificate
 	}
 	b, err := ocsp.CreateResponse(issuer, responder, tmpl, key)
@@ -304,6 +310,29 @@ func runC02(c *Ctx) {
 		}(i, cs)
 	}
 	wg.Wait()
+	// every mode that enables OCSP, with CRL checking configured alongside (the CRL does not list
+	// the certificate): an authentic "revoked" must reject, whatever the CRL side concludes
+	for mi, mode := range []string{"", "prefer_ocsp", "prefer_crl", "ocsp_only"} {
+		for _, cache := range []string{"", "1h"} {
+			org := NewOrigin()
+			leaf := p.CA.IssueLeaf(LeafOpts{CN: fmt.Sprintf("c02-mode-%d", mi), Serial: nextOCSPSerial(), OCSP: []string{org.URL("/r")}, CDP: []string{org.URL("/crl")}})
+			serveSpec(org, "/r", p, leaf, func(int) (respSpec, bool) { return respSpec{Status: "revoked"}, true })
+			crl := p.CA.MakeCRL(CRLOpts{Entries: serials(7, 8, 9)})
+			org.ServeBytes("/crl", func() []byte { return crl })
+			wd := c.TempDir(fmt.Sprintf("c02_mode_%d_%s", mi, cache))
+			v, err := NewValidator(VCfg{Mode: mode, WorkDir: wd, Interval: "1h", CacheDuration: cache})
+			mustNoErr(err)
+			deferClose(v)
+			got := classify(v.Verify(leaf.Cert, p.CA.Cert, p.Root.Cert))
+			c.Count("mode=" + mode + "/revoked")
+			c.Nontrivial("mode|" + mode + "|" + cache)
+			if got != "revoked" {
+				c.Fail("", fmt.Sprintf("mode %q cache=%q with CRL checking configured (certificate not on the CRL): OCSP answers revoked, handshake %s", mode, cache, got), map[string]string{"mode": mode, "cache": cache, "verdict": got})
+			}
+			org.Close()
+			os.RemoveAll(wd)
+		}
+	}
 	closeDeferred()
 	var items []string
 	for i, cs := range cases {
@@ -369,6 +398,7 @@ type c05Case struct {
 	Spec     respSpec `json:"response"`
 	Mutation string   `json:"mutation,omitempty"`
 	Strict   bool     `json:"strict"`
+	NoSKI    bool     `json:"leaf_without_subject_key_id"`
 	First    string   `json:"first"`
 	Second   string   `json:"second"`
 }
@@ -376,10 +406,12 @@ type c05Case struct {
 func runC05(c *Ctx) {
 	p := newOCSPPKI("c05")
 	var cases []*c05Case
-	for _, signer := range []string{"issuer", "delegate", "delegate-noeku", "leaf", "stranger", "stranger-embedded", "sibling"} {
+	for _, signer := range []string{"issuer", "delegate", "delegate-noeku", "leaf", "stranger", "stranger-embedded", "sibling", "leaf-bare", "delegate-noeku-bare", "stranger-bare", "sibling-bare"} {
 		for _, serial := range []string{"this", "other"} {
 			for _, status := range []string{"good", "revoked", "unknown"} {
 				cases = append(cases, &c05Case{Spec: respSpec{Signer: signer, Status: status, Serial: serial}, Strict: true})
+				// the same with a presented certificate that has no subjectKeyIdentifier of its own
+				cases = append(cases, &c05Case{Spec: respSpec{Signer: signer, Status: status, Serial: serial}, Strict: true, NoSKI: true})
 			}
 		}
 	}
@@ -389,7 +421,7 @@ func runC05(c *Ctx) {
 	run := func(cs *c05Case, mutate func([]byte) []byte) {
 		org := NewOrigin()
 		defer org.Close()
-		leaf := p.CA.IssueLeaf(LeafOpts{CN: "c05", Serial: nextOCSPSerial(), OCSP: []string{org.URL("/r")}})
+		leaf := p.CA.IssueLeaf(LeafOpts{CN: "c05", Serial: nextOCSPSerial(), OCSP: []string{org.URL("/r")}, NoSKI: cs.NoSKI})
 		var down int32
 		org.Route("/r", func(_ int, w http.ResponseWriter, r *http.Request) {
 			if atomic.LoadInt32(&down) == 1 {
@@ -459,12 +491,12 @@ func runC05(c *Ctx) {
 		}
 		if cs.First != want {
 			tag := ""
-			c.Fail(tag, fmt.Sprintf("response signed by %s for serial %s, status %s%s: verdict %s, expected %s", cs.Spec.Signer, cs.Spec.Serial, cs.Spec.Status, cs.Spec.RespStatus, cs.First, want), cs)
+			c.Fail(tag, fmt.Sprintf("response signed by %s for serial %s, status %s%s (presented certificate without SKI: %v): verdict %s, expected %s", cs.Spec.Signer, cs.Spec.Serial, cs.Spec.Status, cs.Spec.RespStatus, cs.NoSKI, cs.First, want), cs)
 		}
 		if cs.Second != want {
 			c.Fail("", fmt.Sprintf("response signed by %s for serial %s, status %s%s: second handshake with the responder down %s, expected %s (only answers that count may be cached)", cs.Spec.Signer, cs.Spec.Serial, cs.Spec.Status, cs.Spec.RespStatus, cs.Second, want), cs)
 		}
-		c.Nontrivial(fmt.Sprintf("%v", cs.Spec))
+		c.Nontrivial(fmt.Sprintf("%v %v", cs.Spec, cs.NoSKI))
 		if i%9 == 0 {
 			c.Sample(cs)
 		}
@@ -495,7 +527,7 @@ func runC05(c *Ctx) {
 	}
 	c.WriteCoqSharded("cases_C05", "From Verif Require Import Base Ocsp RunOcsp.\nOpen Scope N_scope.\n", "ocase", items, "ocsp_mismatches", 120)
 	c.Rep.Cases = len(cases) + len(muts)
-	c.Rep.Rule = "one responder, ocsp_aia_strict on, cache 1h: signer {issuer, delegate with/without OCSPSigning EKU, the client's own certificate, stranger with/without embedded certificate, sibling CA} x serial {this, other} x status {good, revoked, unknown}; the four OCSP error statuses; every 3rd (thorough: every) single-byte mutation of an authentic good and an authentic revoked response; second handshake with the responder down shows what was cached"
+	c.Rep.Rule = "one responder, ocsp_aia_strict on, cache 1h: signer {issuer, delegate with/without OCSPSigning EKU, the client's own certificate, stranger with/without embedded certificate, sibling CA; the non-issuer signers also without embedded certificate under the real issuer's CertID} x serial {this, other} x status {good, revoked, unknown}; the four OCSP error statuses; every 3rd (thorough: every) single-byte mutation of an authentic good and an authentic revoked response; second handshake with the responder down shows what was cached"
 }
 
 // ---------------------------------------------------------------- C14
